@@ -1,7 +1,9 @@
 #!/bin/bash
-# usage: seedtest.sh <worktree> <crate-dir> <package> <id> [<id>...]
-# 1. confirms the seeded change in its scratch worktree (tests pass with patch, demo fails with / passes without)
-# 2. applies it to /repo, runs the given quick checks, reverts.
+# usage: [SEED_FEATURES="--features verif-hooks"] seedtest.sh <worktree-with-_seed> <crate-dir> <package> <id> [<id>...]
+# 1. confirms the seeded change in its own scratch worktree (demo passes without / fails with the patch; the
+#    existing suite passes with it)
+# 2. applies it in the shared scratch worktree /tmp/mut/scratch and runs the given quick checks with VERIF_REPO
+#    pointing there (never touches /repo).
 wt="$1"; crate="$2"; pkg="$3"; shift 3
 cd "$wt" || exit 2
 git checkout -q -- . ; rm -f "$crate/tests/seed_demo.rs"
@@ -15,12 +17,6 @@ rm -f "$crate/tests/seed_demo.rs"; rmdir "$crate/tests" 2>/dev/null
 echo "--- full suite with patch"
 cargo test --workspace --offline 2>&1 | grep -E "^test result" | awk '{p+=$4; f+=$6} END {print "passed",p,"failed",f}'
 git checkout -q -- .
-echo "--- checks against the patch in /repo"
-cd /repo && git diff --quiet || { echo "repo dirty"; exit 2; }
-git apply "$wt/_seed/patch.diff" || exit 2
-for id in "$@"; do
-  out=$(cd /verif && timeout 1500 ./check $id quick 2>&1); rc=$?
-  echo "== $id rc=$rc"; echo "$out" | grep -E "VIOLATION|KNOWN|BUILD-FAILED|INCONCLUSIVE|HARNESS|signature" | head -6
-done
-git checkout -q -- .
-rm -rf /verif/replays
+[ $# -eq 0 ] && exit 0
+echo "--- checks against the patch"
+/verif/tools/runpatch.sh "$wt/_seed/patch.diff" "$@"
